@@ -54,3 +54,19 @@ Definition ex_trace_finish (w : nat) : list (ev val) :=
 Definition ex_trace_crash : list (ev val) :=
   [ ELock 0%nat 1 true; ECanLoad 0%nat 1 false; EStart 0%nat 1; ELock 1%nat 1 false; ECanLoad 1%nat 1 false;
     ECrash 0%nat; ECanLoad 1%nat 1 false; EExit 1%nat 0%nat ].
+
+(* a = g1(); barrier(); b = g2()  -  b waits for a through the barrier only *)
+Definition ex_bprog : bprogram :=
+  {| bp_prog := {| p_tasks := [ {| t_id := 1; t_fn := 1; t_args := []; t_kwargs := [] |};
+                                {| t_id := 2; t_fn := 2; t_args := []; t_kwargs := [] |} ];
+                   p_kinds := []; p_keep_going := false; p_keep_failed := false |};
+     bp_extra := [(2, [1])] |}.
+Definition ex_ba : val := VApp 1 [] [].
+Definition ex_bb : val := VApp 2 [] [].
+(* worker 1 finds the barrier closed while worker 0 runs a; after a reload each sees b; worker 0 runs it *)
+Definition ex_btrace : list (ev val) :=
+  [ ELock 0%nat 1 true; ECanLoad 0%nat 1 false; EStart 0%nat 1; ECanLoad 1%nat 1 false; ELock 1%nat 1 false;
+    ERet 0%nat 1 ex_ba; EDump 0%nat 1 ex_ba; EUnlock 0%nat 1;
+    ECanLoad 0%nat 1 true; ELock 0%nat 2 true; ECanLoad 0%nat 2 false; EStart 0%nat 2;
+    ECanLoad 1%nat 1 true; ELock 1%nat 2 false; ECanLoad 1%nat 2 false;
+    ERet 0%nat 2 ex_bb; EDump 0%nat 2 ex_bb; EUnlock 0%nat 2; EExit 0%nat 0%nat; EExit 1%nat 0%nat ].
